@@ -155,6 +155,10 @@ func describe(text string) (*stmtDesc, error) {
 		kind := strings.TrimPrefix(fmt.Sprintf("%T", st), "*influxql.")
 		target := ""
 		switch s := st.(type) {
+		case *influxql.CreateUserStatement:
+			if s.Admin {
+				target = "admin" // CREATE USER … WITH ALL PRIVILEGES: what the zero-user bootstrap rule looks for
+			}
 		case *influxql.DropUserStatement:
 			target = s.Name
 		case *influxql.SetPasswordUserStatement:
